@@ -12,8 +12,34 @@ check(
     "symbolic execution (CrossHair+z3) of the real converter code over all strings/digit fillings within length bounds; AST->z3 proof for integer datatype inference",
     "DESIGN.md §5 C05",
 )
+_SEAM_NOTE = ("Trusted: z3, CrossHair, the chmodels integer<->string models, and the SAX seam (harness/seam.py: recorder ContentHandler + iterparse-contract "
+              "element stubs), which is validated on every run against the real text path (XmlSerializer.render / XmlParser.from_string, all writer x handler "
+              "pairs) on a concrete corpus. Outside: the text layer (escaping, encodings, declaration, entities/CDATA, XML Char validity - XMLGenerator, lxml, "
+              "expat, libxml2 are C or I/O behind the seam), models outside the pool harness/models.py, strings longer than the stated bound. "
+              "XmlContext.get_subclasses(object) is stubbed to walk the model pool (which classes are loaded is environment).")
+check(
+    "C01",
+    "Bounded, solver-decided at the binding layer: for each instance builder over the model pool (one or two value-symbolic focus fields - ints, strings of <= 2 arbitrary code points, bools - plus selectors into concrete pools) CrossHair executes the REAL EventGenerator, the real writer's Python half, the real handler's process_context and the real NodeParser/node classes and proves parse(serialize(obj)) == obj (and that the SAX stream is namespace-well-formed) over all values, per configuration partition (writer x handler x user prefix map x indent x ignore_default_attributes). A partition counts only if its path tree was exhausted and its reachability twin reached. Counterexamples are replayed concretely and through XmlSerializer.render/XmlParser.from_string.",
+    _SEAM_NOTE,
+    "symbolic execution (CrossHair+z3) of the real serializer and parser joined at the SAX seam; selectors for models/configurations expanded into partitions",
+    "DESIGN.md §3.5, §5 C01",
+)
+check(
+    "C03",
+    "Bounded, solver-decided: same builders and symbolic values as C01, both writers' Python halves; oracle 1 is a namespace monitor on the recorded SAX stream (balanced mappings, reserved prefixes, in-scope prefixes for element/attribute/xsi:type names, emulation of XMLGenerator's uri->prefix table); oracle 2 is a differential against an independent reading of the class/field metadata (harness/refser.py, written from the documentation) for 21 builders: names, namespaces, nesting, order, xsi:nil/xsi:type and text must be equal. Only SerializerError/XmlWriterError may escape.",
+    _SEAM_NOTE + " Oracle 2 does not cover compound fields, wildcards, unions, QName values and formats (monitor only).",
+    "symbolic execution (CrossHair+z3) of the real serializer; SAX-stream namespace monitor; differential against an independent reference serializer",
+    "DESIGN.md §5 C03",
+)
+check(
+    "C08",
+    "Bounded, solver-decided: on one symbolic object the Python halves of XmlEventWriter, LxmlEventWriter and LxmlTreeBuilder must emit infoset-equal SAX streams (or fail alike), and on one symbolic event stream XmlEventHandler (with merge_parent_namespaces) and LxmlEventHandler must build equal objects (or fail alike); iterwalk (pure Python) is compared with the iterparse-contract stream. Same builders, values and partitions as C01.",
+    _SEAM_NOTE + " Source kinds that are I/O (bytes, str, path, file object) and everything inside the C libraries are outside.",
+    "symbolic execution (CrossHair+z3) of both writers' and both handlers' Python halves on the same symbolic input, differential comparison",
+    "DESIGN.md §5 C08",
+)
 for _p, _r in {
-    "C01": "check not built yet", "C03": "check not built yet", "C04": "check not built yet",
+    "C04": "check not built yet",
     "C07": "check not built yet", "C08": "check not built yet", "C09": "check not built yet", "C10": "check not built yet",
     "C11": "check not built yet", "C12": "check not built yet", "C14": "check not built yet", "C15": "check not built yet",
     "C18": "check not built yet", "C19": "check not built yet",
